@@ -73,11 +73,14 @@ struct Blk { int live, slot; unsigned char *ptr; size_t len; unsigned fill; };
 static struct Blk blks[NBLK];
 static unsigned fillgen;
 
+static int nfreed;   /* slab objects given back (see struct Freed below) */
+
 static void world_reset(void)
 {
 	/* drop everything without calling into the allocators (their memory goes with trkm) */
 	memset(slots, 0, sizeof slots);
 	memset(blks, 0, sizeof blks);
+	nfreed = 0;
 	trkm_reset();
 	trk_reset();
 	slots[0].kind = K_TRK;
@@ -191,6 +194,31 @@ static int can_destroy(int s)
 		if (slots[i].kind == K_NONE || in_destroy_set(s, i)) continue;
 		if (parent_of(i) >= 0 && in_destroy_set(s, parent_of(i))) return 0;
 	}
+	return 1;
+}
+
+/* slab objects given back with slab_free: address and the fill pattern the client left in them
+ * ("init func gets either zeroed obj or old obj from _free()") */
+struct Freed { int slot; unsigned char *ptr; unsigned fill; };
+static struct Freed freed[NBLK];
+static void freed_drop_slot(int s)
+{
+	int i, k = 0;
+	for (i = 0; i < nfreed; i++) if (freed[i].slot != s) freed[k++] = freed[i];
+	nfreed = k;
+}
+/* the part of a slab object behind its struct List: zero when never used, else as left at slab_free */
+static int slab_tail_ok(int s, const unsigned char *p, size_t len)
+{
+	int i; size_t j;
+	for (i = nfreed - 1; i >= 0; i--)
+		if (freed[i].slot == s && freed[i].ptr == p) {
+			unsigned fill = freed[i].fill;
+			freed[i] = freed[--nfreed];
+			for (j = sizeof(struct List); j < len; j++) if (p[j] != pat(fill, j)) return 0;
+			return 1;
+		}
+	for (j = sizeof(struct List); j < len; j++) if (p[j]) return 0;
 	return 1;
 }
 
@@ -412,6 +440,7 @@ int main(void)
 				break;
 			case K_SLAB:
 				slab_destroy(slots[s].slab);
+				freed_drop_slot(s);
 				break;
 			case K_MP:
 				mempool_destroy(&slots[s].mp);
@@ -446,8 +475,10 @@ int main(void)
 			p = slab_alloc(slots[s].slab);
 			ct = check_all();
 			if (p && trkm_find(p, slots[s].objsize) >= 0) {
-				if (slots[s].init) { if (init_calls != 1 || init_arg != p) ct = 0; }
-				else for (j = 0; j < slots[s].objsize; j++) if (p[j]) { ct = 0; break; }
+				if (slots[s].init) {
+					if (init_calls != 1 || init_arg != p) ct = 0;
+					if (slots[s].objsize <= BIGBLK && !slab_tail_ok(s, p, slots[s].objsize)) ct = 0;
+				} else for (j = 0; j < slots[s].objsize; j++) if (p[j]) { ct = 0; break; }
 			}
 			if (p) { blks[b].live = 1; blks[b].slot = s; blks[b].ptr = p; blks[b].len = slots[s].objsize; blks[b].fill = ++fillgen; }
 			out_block(b, p, slots[s].objsize, (slots[s].align == 16 && slots[s].parent == 0) ? 16 : 8, ct);
@@ -458,6 +489,7 @@ int main(void)
 			U(1, s); U(2, b);
 			if (s >= NSLOT || slots[s].kind != K_SLAB || b >= NBLK || !blks[b].live || blks[b].slot != (int)s) BAD;
 			blks[b].live = 0;
+			if (nfreed < NBLK) { freed[nfreed].slot = s; freed[nfreed].ptr = blks[b].ptr; freed[nfreed].fill = blks[b].fill; nfreed++; }
 			slab_free(slots[s].slab, blks[b].ptr);
 			printf("al=1 in=1 dj=1 ct=%d ## - live=%ld\n", check_all(), trkm_live);
 			goto next;
